@@ -370,6 +370,22 @@ func tokenStreamCheck(kind, alg, ns string) (out string) {
 		if _, err := read(&faultio.Reader{Data: b, FailAt: off, Chunks: []int{1 + off%4}}); err == nil {
 			return fmt.Sprintf("FromSealedReader returned no error although the reader failed at offset %d of %d", off, len(b))
 		}
+		// right after a failed read, an honest stream is read as if nothing had happened before (all three entry points)
+		for _, honest := range []func() (cid.Cid, error){
+			func() (cid.Cid, error) {
+				_, g, e := token.FromSealedReader(&faultio.Reader{Data: b, FailAt: -1})
+				return g, e
+			},
+			func() (cid.Cid, error) { return read(&faultio.Reader{Data: b, FailAt: -1, Chunks: []int{5}}) },
+		} {
+			got, err := honest()
+			if err != nil {
+				return fmt.Sprintf("after a failed read (offset %d), FromSealedReader rejects honest bytes: %s", off, err.Error())
+			}
+			if got != c {
+				return fmt.Sprintf("after a failed read (offset %d), FromSealedReader reports a CID that is not the CID of the bytes it read", off)
+			}
+		}
 	}
 	// writer side
 	write := func(w *faultio.Writer) (cid.Cid, error) {
